@@ -124,6 +124,7 @@ let obs_history (hosts : ostring) (maps : ostring) (ops : ostring) : ostring =
       List.map (fun m -> let (id, w) = split_first '=' m in
                  (z_of_dec id, (match value_of_wire w with VMap kv -> kv | _ -> []))) (split_on '~' maps) in
   let parse_errors = ref [] in
+  let public_calls = ref [] in   (* Q: the public Resolve; only the class of its result is observed *)
   let op_of (i : int) (o : ostring) : rop =
     let body = String.sub o 1 (String.length o - 1) in
     match o.[0] with
@@ -133,8 +134,8 @@ let obs_history (hosts : ostring) (maps : ostring) (ops : ostring) : ostring =
     | 'G' -> OpGet (bytes_of_hex body)
     | 'W' -> let (id, kw) = split_first ':' body in let (k, w) = split_first '=' kw in
       OpCallerWrite (z_of_dec id, bytes_of_hex k, value_of_wire w)
-    | 'R' -> (match parse_source (bytes_of_hex body) with
-        | Accepted e -> OpResolve (strip e)
+    | 'R' | 'Q' -> (match parse_source (bytes_of_hex body) with
+        | Accepted e -> if o.[0] = 'Q' then public_calls := i :: !public_calls; OpResolve (strip e)
         | _ -> parse_errors := i :: !parse_errors; OpGet [])
     | _ -> failwith "op" in
   let opl = List.mapi op_of (split_on '~' ops) in
@@ -144,6 +145,9 @@ let obs_history (hosts : ostring) (maps : ostring) (ops : ostring) : ostring =
       if List.mem i !parse_errors then out := "parse-error" :: !out
       else match ob with
         | ObsNone -> ()
+        | ObsValue (Ok _) when List.mem i !public_calls -> out := "QV" :: !out
+        | ObsValue Unk -> out := "U" :: !out
+        | ObsValue _ when List.mem i !public_calls -> out := "QE" :: !out
         | ObsValue (Ok v) -> out := ("V " ^ wire_of_value v) :: !out
         | ObsValue Unk -> out := "U" :: !out
         | ObsValue _ -> out := "E" :: !out
